@@ -27,9 +27,14 @@ import (
 // It is used only to classify an observed round-trip failure: if the text, read
 // in text order, gives back exactly the values that were written, the formatter
 // did its job and the failure is the analyzer's evaluation order.
-func readTextOrder(text string) ([]zed.Value, error) {
+//
+// The analyzer has further defects on exactly the constructs involved
+// (`v (=name)` under an enclosing decorator; a union decorator repeated under an
+// enclosing decorator), so there are two spellings of `v (=name)`: as it is, or
+// as `v (name=T)` (defAsCast); a caller tries both.
+func readTextOrder(text string, defAsCast bool) ([]zed.Value, error) {
 	p := zson.NewParser(strings.NewReader(text))
-	e := &expander{defs: map[string]astzed.Type{}, scratch: zed.NewContext()}
+	e := &expander{defs: map[string]astzed.Type{}, scratch: zed.NewContext(), defAsCast: defAsCast}
 	zctx := zed.NewContext()
 	analyzer := zson.NewAnalyzer()
 	var out []zed.Value
@@ -61,6 +66,7 @@ type expander struct {
 	defs       map[string]astzed.Type // name -> its current definition, fully expanded (a TypeDef)
 	scratch    *zed.Context
 	syntaxOnly bool // only track which names are defined (refsFollowDefs)
+	defAsCast  bool // spell v (=name) as v (name=T)
 	err        error
 }
 
@@ -91,8 +97,9 @@ func (e *expander) value(v astzed.Value) astzed.Value {
 		}
 		def := e.typeAST(named)
 		e.defs[v.TypeName] = def
-		// Spelled as v (name=T): the analyzer mishandles v (=name) under an
-		// enclosing decorator (a separate finding).
+		if !e.defAsCast {
+			return &astzed.DefValue{Kind: "DefValue", Of: of, TypeName: v.TypeName}
+		}
 		return &astzed.CastValue{Kind: "CastValue", Of: &astzed.ImpliedValue{Kind: "ImpliedValue", Of: of}, Type: def}
 	case *astzed.CastValue:
 		// text order: the value, then its decorator
